@@ -29,6 +29,9 @@ RULE += (
          'Also: transient branch wrappers, shared subtree objects, ids '
          'with lone surrogates / controls; a rendering that raises, '
          'exceeds 30 CPU-seconds or memory is a violation. ')
+RULE += (
+         'Links followed without the cookie and first visits as '
+         'machine rules. ')
 ASSUMPTIONS = [
     'sibling ids are unique (the state identifies nodes by id path)',
     'the model is the set of expanded id paths; rows are compared in '
